@@ -143,8 +143,16 @@ def lattice_rules(model, R):
         k = r[0].slice
         ok = (isinstance(k, ast.Call) and chain(k.func) == ['self', '_context', 'extension'] and name_is(k.args[0], f.params[1])
               and S.sort(k) == 'O')
-    R.check(ok, 'MAPPING', f, f.node, 'lattice(properties): the member whose extent is the derivation of the properties',
-            'self._mapping[self._context.extension(properties, raw=True)]', src(r[0]) if r else '')
+    via_getitem = [n for n in walk(f.body) if isinstance(n, ast.Call) and chain(n.func) == ['self', '_context', '__getitem__']
+                   and n.args and name_is(n.args[0], f.params[1])]
+    if via_getitem and not ok:
+        R.bad('MAPPING', f, via_getitem[0], 'lattice(properties): the member whose extent is the derivation of the properties',
+              'self._mapping[self._context.extension(properties, raw=True)]', src(via_getitem[0]),
+              extra={'consequence': 'Context.__getitem__ reads a collection as objects first: the empty property set (and any name clash) is closed as an '
+                                    'object set - lattice(()) returns the bottom concept instead of the top'})
+    else:
+        R.check(ok, 'MAPPING', f, f.node, 'lattice(properties): the member whose extent is the derivation of the properties',
+                'self._mapping[self._context.extension(properties, raw=True)]', src(r[0]) if r else '')
     # __getitem__
     f = model.func('lattices.CollectionMixin.__getitem__')
     S = Sorter(f)
